@@ -60,7 +60,14 @@ class Summary:
         self.why = collections.defaultdict(list)     # param -> [Reason]
 
 
-class Effects:
+class Resolver:
+    """call-site -> candidate repo callees (may-analysis)"""
+
+    def __init__(self, prog):
+        self.prog = prog
+
+
+class Effects(Resolver):
     def __init__(self, prog):
         self.prog = prog
         self.sum = {qn: Summary(fi) for qn, fi in prog.functions.items()}
@@ -431,6 +438,9 @@ class Effects:
                 if sub:
                     return [f"{qn}({param}) @ {r.where}: {r.construct}"] + sub
         return None
+
+
+Resolver.resolve_call = Effects.resolve_call
 
 
 def _container_evidence(fnode):
